@@ -49,8 +49,11 @@ func genC09R(t *rapid.T) C09RCase {
 func execC09R(t *testing.T, c C09RCase) *Verdict {
 	// reference with source info, to attach source info to the supplied protos
 	ref := refCompile(&c.WL, c.WL.names(), 1, nil)
-	if ref.err != nil || ref.refTrouble != "" {
-		panic(sim.HarnessFault{Msg: fmt.Sprintf("C09R workload invalid: %v %s", ref.err, ref.refTrouble)})
+	if ref.refTrouble != "" {
+		panic(sim.HarnessFault{Msg: fmt.Sprintf("C09R reference compile: %s", ref.refTrouble)})
+	}
+	if ref.err != nil {
+		return invalidReference("C09R", &c.WL, c.WL.names(), ref)
 	}
 	supplied, err := buildSupplied(&c.WL)
 	if err != nil {
